@@ -73,6 +73,41 @@ def guard_conditions(fn: ast.AST, node: ast.AST) -> list[ast.AST]:
     return out
 
 
+def backing_attr(ctx, cls, prop: str) -> str:
+    """Name of the private attribute behind a public property (`state_space` -> `_state_space`), read from the property's
+    own return statement, so that renaming the private attribute does not matter."""
+    r = ctx.ct.lookup(cls, prop)
+    if r is not None:
+        rv = returned_expr(r[1])
+        if is_self_attr_node(rv):
+            return rv.attr
+    raise AnalysisError(f"anchor vanished: property {cls.name}.{prop} does not return a `self.<attribute>`")
+
+
+def is_self_attr_node(e) -> bool:
+    return isinstance(e, ast.Attribute) and isinstance(e.value, ast.Name) and e.value.id == "self"
+
+
+def data_attrs_used(ctx, cls, method: str, how: str) -> list[str]:
+    """Private data attributes (never methods / properties of the class) that `method` calls (`how == "call"`) or
+    subscripts (`how == "subscript"`), in order of first use."""
+    owner, fn = ctx.ct.require(cls, method)
+    names = set(ctx.ct.methods_of(cls))
+    out = []
+    for n in ast.walk(fn):
+        e = n.func if (how == "call" and isinstance(n, ast.Call)) else n.value if (how == "subscript" and isinstance(n, ast.Subscript)) else None
+        if e is not None and is_self_attr_node(e) and e.attr not in names and e.attr not in out:
+            out.append(e.attr)
+    return out
+
+
+def one_data_attr(ctx, cls, method: str, how: str, what: str) -> str:
+    got = data_attrs_used(ctx, cls, method, how)
+    if len(got) != 1:
+        raise AnalysisError(f"anchor vanished: {cls.name}.{method} uses {len(got)} data attributes by {how} ({got}); expected exactly the {what}")
+    return got[0]
+
+
 def conditions_at(fn: ast.AST, node: ast.AST, raising_guards: bool = True) -> list[ast.AST]:
     """Path conditions known to hold when `node` executes: the effective conditions of the enclosing `if`s, plus the
     complement of every guard clause (`if T: ...raise/return/break/continue`) that precedes it in an enclosing block.
